@@ -4,6 +4,7 @@
   decided by the kernel for every one of the 65 536 subsets (no sampling), from the hashes.conf of the tree.
 -/
 import Xc.Thm.C19Core
+import Xc.Thm.C01
 import Xc.Thm.C19c.Chunk00
 import Xc.Thm.C19c.Chunk01
 import Xc.Thm.C19c.Chunk02
@@ -156,6 +157,13 @@ theorem C19_all_configs (n : Nat) (h : n < 65536) : cfgOk n = true := by
   rw [List.mem_map]
   exact ⟨n % 1024, List.mem_range.mpr (Nat.mod_lt _ (by decide)), by omega⟩
 
+/-- every configuration's table satisfies what the round-trip theorem C01_roundtrip asks of it -/
+theorem C19_tableOk (n : Nat) (h : n < 65536) : C18.TableOk (mkTable Gen.hashesConf (subsetOf n)) = true := by
+  have := C19_all_configs n h
+  unfold cfgOk at this
+  simp only [Bool.and_eq_true] at this
+  exact this.1.1.1.2
+
 def bit (en : Method → Bool) (m : Method) : Nat := if en m then 1 else 0
 
 /-- binary encoding of a selection -/
@@ -187,5 +195,19 @@ theorem subsetOf_encode (en : Method → Bool) : encode en < 65536 ∧ ∀ m, su
   rw [bit_eq en m]
   unfold encode subsetOf
   cases m <;> simp only [Method.nameRank] <;> congr 1 <;> apply propext <;> constructor <;> intro h <;> omega
+
+
+/-- **C01 in every configuration**: whatever subset of the sixteen methods is enabled (and whatever the build's default and
+    descrypt switch), a successful result of one of the twelve methods with a proved front-end round trip is accepted again,
+    dispatched to the same row, and reproduces itself -/
+theorem C19_roundtrip_every_config (en : Method → Bool) (dflt : Option Bytes) (d : Bool) (D : Digests) (hD : D.WF) (p s H : Bytes)
+    (h : cryptPure { table := mkTable Gen.hashesConf en, dflt := dflt, descryptOn := d } D p s = .ok H)
+    (hm : ∀ r, getHashFn (mkTable Gen.hashesConf en) s = some r → C01.proved r.crypt = true) :
+    cryptPure { table := mkTable Gen.hashesConf en, dflt := dflt, descryptOn := d } D p H = .ok H := by
+  obtain ⟨hlt, heq⟩ := subsetOf_encode en
+  have hen : subsetOf (encode en) = en := funext heq
+  have hT := C19_tableOk (encode en) hlt
+  rw [hen] at hT
+  exact C01.C01_roundtrip _ hT D hD p s H h hm
 
 end Xc.C19
